@@ -288,7 +288,8 @@ class ManifestContext:
             text_adps = self.calculate_text_adaptation_sets(
                 stream, video.lang)
         assert video is not None
-        requested_depth = opts.timeShiftBufferDepth
+        # (the option is removed from non-live requests)
+        requested_depth = getattr(opts, 'timeShiftBufferDepth', None)
         if timing:
             opts.availabilityStartTime = timing.availabilityStartTime
             opts.timeShiftBufferDepth = timing.timeShiftBufferDepth
